@@ -149,7 +149,7 @@ def make_cases(tier, profile):
                 sym_history=True, plain_chans=['&y'], nicks=['alice', 'bob', 'carol'], operators=[('opname', 'goodpw', None)])
     from mirsym.world import RANKS, UMODES
     # quick: existence of #x, membership of the actor and of one other user, the actor's own rank flags and operator flag, its invitation,
-    # key, limit, max_joins, one ban, +i +m +s are symbolic; everything else has its default.  thorough: additionally the actor's protected/voice flags, the second ban, +t +n, its +i and bob's operator/voice flags.
+    # key, limit, max_joins, one ban, +i +m +s are symbolic; everything else has its default.  thorough: additionally the actor's protected/voice flags (more did not finish within 40 minutes).
     pq = {}
     if True:
         spec = dict(spec, sym_caps=False, sym_topic=False, sym_away=False, sym_history=False)
@@ -161,7 +161,7 @@ def make_cases(tier, profile):
                    'protected_topic_#x': False, 'no_external_messages_#x': False, 'protected_alice_#x': False, 'voice_alice_#x': False})
     if tier != 'quick':
         # thorough: more of the world is free (the fully symbolic world did not finish in reasonable time for ~250 lines)
-        for k in ('protected_alice_#x', 'voice_alice_#x', 'ban_#x_1', 'protected_topic_#x', 'no_external_messages_#x', 'umode_invisible_alice', 'operator_bob_#x', 'voice_bob_#x'): pq.pop(k, None)
+        for k in ('protected_alice_#x', 'voice_alice_#x'): pq.pop(k, None)
     for l in lines_for(tier):
         cases.append(dict(name=l[:60], line=l, judges=['no_panic', 'keeps_serving'], spec=dict(spec, sym_history=True) if l.upper().startswith('WHOWAS') else spec, partial0=pq))
         cases.append(dict(name=l[:60] + ' [unregistered]', line=l, judges=['no_panic'], spec=dict(spec, sym_ranks=False, sym_lists=False, sym_flags=False, sym_modes=False),
@@ -180,7 +180,7 @@ def make_cases(tier, profile):
             cases.append(dict(name=f'{fn} on {n} bytes', pure='fn1', fn=fn, n=n, err_arg=err))
     return cases
 
-BOUNDS = dict(quick='existence of #x, membership of the actor and one other user, the actor\'s founder/operator/half-operator flags and operator mode, its invitation, key, 64-bit limit and max_joins, one ban mask, +i +m +s symbolic; thorough: additionally protected/voice of the actor, a second ban, +t +n, +i of the actor, operator/voice of bob', universe='registered actor in a symbolic world (own rank flags, memberships of everybody, flags, key, 64-bit limit and max_joins, lists, invitations, away, all user modes, WHOWAS history) and an unregistered connection',
+BOUNDS = dict(quick='existence of #x, membership of the actor and one other user, the actor\'s founder/operator/half-operator flags and operator mode, its invitation, key, 64-bit limit and max_joins, one ban mask, +i +m +s symbolic; thorough: additionally protected/voice of the actor', universe='registered actor in a symbolic world (own rank flags, memberships of everybody, flags, key, 64-bit limit and max_joins, lists, invitations, away, all user modes, WHOWAS history) and an unregistered connection',
               lines='about 900 concrete lines: every verb with every arity, existing / unknown / repeated / own / empty / 300-500 byte names, multi-byte text, wildcard-heavy masks, numeric extremes (0, 2^64-1, 2^64, -1, non-digits), sign-switching mode strings, comma lists with repeats, prefixes, odd spacing and sources',
               pure_layer='from_shared_str + from_message on "<VERB> " followed by up to 3 (6) fully symbolic bytes (ASCII and UTF-8) for all 41 verbs; validate_*, normalize_sourcemask, get_privmsg_target_type, validate_password_hash on up to 5 (8) symbolic bytes',
               outside='sequences of lines beyond one step from an Inv-state (covered inductively through Inv); lines longer than 500 bytes except the over-long event; memory exhaustion')
